@@ -61,7 +61,7 @@ def floors(tier):
     return {"A:runs": 300 * k, "A:rows_compared": 8000 * k, "A:csv_cells_compared": 50000 * k, "A:runs_with_skipped_in_batch": 40 * k,
             "A:best_config_decided": 250 * k, "A:loaded_best_config_decided": 250 * k, "A:stats_trials_compared": 1500 * k,
             "A:resumed_with_changed_config": 30 * k, "A:trials_without_results": 20 * k,
-            "A:runs_aborted_by_failure_limit": 10 * k, "A:runs_with_nan_gaps_in_the_optimised_metric": 30 * k, "A:continued_at_other_path": 60 * k, "A:statistics_compared_after_continuation": 30 * k, "A:best_config_per_metric_decided:mode_differs_from_first_metric": 30 * k,
+            "A:runs_aborted_by_failure_limit": 10 * k, "A:runs_with_nan_gaps_in_the_optimised_metric": 30 * k, "A:continued_at_other_path": 60 * k, "A:statistics_compared_after_continuation": 30 * k, "A:runs_with_keys_missing_from_the_first_row": 100 * k, "A:best_config_per_metric_decided:mode_differs_from_first_metric": 30 * k,
             "B:histories": 2000 * k, "B:histories_with_nan": 200 * k, "B:histories_with_ties": 100 * k, "B:stats_compared": 8000 * k,
             "B:best_decided": 1500 * k, "B:best_decided_with_non_numeric_reports": 60 * k}
 
@@ -177,12 +177,22 @@ def run_part_a(spec, o):
     sim = spec["backend"] == "sim"
     nan_ok = kind.startswith("fifo") or kind == "median"
     rr = random.Random(spec["seed"] + 77)
+    sparse_keys = (not sim) and random.Random(spec["seed"] + 78).random() < 0.4
+    if sparse_keys:
+        o.count("A:runs_with_keys_missing_from_the_first_row")
 
     def extra_fn(t, l, rn):
         v = rr.choice([0.5, 1.5, float("nan"), float("inf"), float("-inf"), 2, -3, 0.1 * t + l])
         d = {"aux_s": rr.choice(["a", "b", "{x}", "na"]), "m2": v}
         if kind == "moasha":
             d["loss2"] = ((t * 31 + l * 17) % 101) / 101.0
+        if sparse_keys:
+            # a metric the script computes only every other epoch, and one that only later trials report: the first row of the
+            # table has neither key
+            if l % 2 == 0:
+                d["val_every_2nd"] = 0.01 * l + 0.1 * t
+            if t >= 2:
+                d["only_later_trials"] = float(t)
         return d
 
     value_fn = None
